@@ -39,6 +39,7 @@ def inject(r, f):
         sim.set_now(sim.now + datetime.timedelta(
             seconds=f.get('seconds', 10)))
         sim.count('fault:clock_jump')
+        sim.log.append((sim.step, 'sched', 'clock', '%.3f' % sim.vtime()))
     elif kind == 'dup':
         # duplicate the k-th in-flight message that matches the method
         cands = [m for m in w.net.inflight
